@@ -196,3 +196,28 @@ Theorem C08_alphabet_distance_rounding_loses_top : forall a, wf_alpha a -> alpha
   lookup (cells_upto (round16_distance (alpha_stop a)) a) (alpha_stop a) = 0.
 Proof. exact distance_rounding_loses_top. Qed.
 Print Assumptions C08_alphabet_distance_rounding_loses_top.
+
+(* ------------------------------------------------------------------ hand-over to the element walker (Rt/ConstraintsWalk.v)
+   a list type reached through a reference that carries its own SIZE (`T ::= L (SIZE(..))`, member
+   `m L (SIZE(..))`): the generated checker accepts iff the SIZE test passes AND every element passes its
+   own checker — no side condition on the constraints. *)
+From A1 Require Import Rt.ConstraintsWalk.
+
+Theorem C08_reference_definition_checks_elements : forall w sz e vs,
+  check w (CRef true (CSeqOf sz e)) (VList vs) = ROk <->
+  size_check sz (zlength vs) = ROk /\ forall v, In v vs -> chk w e true v = ROk.
+Proof. exact reference_definition_checks_elements. Qed.
+Print Assumptions C08_reference_definition_checks_elements.
+
+Theorem C08_slot_list_checks_elements : forall w sz e vs,
+  chk w (CSeqOf sz e) true (VList vs) = ROk <->
+  size_check sz (zlength vs) = ROk /\ forall v, In v vs -> chk w e true v = ROk.
+Proof. exact slot_list_checks_elements. Qed.
+Print Assumptions C08_slot_list_checks_elements.
+
+Theorem C08_reference_definition_rejects_bad_element : forall w sz e pre x post why,
+  size_check sz (zlength (pre ++ x :: post)) = ROk ->
+  (forall v, In v pre -> chk w e true v = ROk) -> chk w e true x = RFail why ->
+  check w (CRef true (CSeqOf sz e)) (VList (pre ++ x :: post)) = RFail why.
+Proof. exact reference_definition_rejects_bad_element. Qed.
+Print Assumptions C08_reference_definition_rejects_bad_element.
